@@ -52,4 +52,4 @@ def run(ctx):
     cfg_ops = ["bind_config", "write_config", "delete_config", "call_eqv"]
     quick = ctx.tier == "quick"
     run_systematic(ctx, distinct_step_cases(ctx.shard, ctx.nshards, cfg_ops, val, params=(0, 1, 2) if quick else (0, 1, 2, 5, 7, 11), grid=(10, 8, 8), cap=200), guarded(ctx, check_case), keep_one_in=1, label="template-single-steps", presharded=True)
-    run_cases(ctx, strat, guarded(ctx, check_case), ctx.budget(1600, 60000))
+    run_cases(ctx, strat, guarded(ctx, check_case), ctx.budget(1600, 12800))
